@@ -399,4 +399,3 @@ func printSummary(ro *RunOutput) {
 		}
 	}
 }
-
